@@ -50,6 +50,14 @@ def _lambda_from_user(
     return a
 
 
+def _differ(old: Any, new: Any) -> bool:
+    "Are two metadata values different? If they cannot tell (arrays compare by element): yes."
+    try:
+        return bool(old != new)
+    except Exception:
+        return True
+
+
 def _local_simplification(a: ast.Lambda) -> ast.Lambda:
     """Simplify the AST by removing unnecessary statements and
     syntatic sugar
@@ -245,7 +253,7 @@ class ObjectStream(Generic[T]):
             add_md = False
             if found_md is None:
                 add_md = True
-            elif found_md != v:
+            elif _differ(found_md, v):
                 logging.getLogger(__name__).info(
                     f'Overwriting metadata "{k}" from its old value of "{found_md}" to "{v}"'
                 )
